@@ -228,7 +228,7 @@ class Gen:
         acts = []
         tag = []
         self.touch(dh)
-        dup = self.rng.random() < 0.15          # the same state handle twice in one transaction
+        dup = self.rng.random() < (0.25 if iface == 'entity' else 0.12)          # the same state handle twice in one transaction
         if dup and iface == 'classic' and (r < 0.45 or not mine):
             # mk_context_state refuses the second one: the transaction is abandoned, nothing is created
             snap = self._save()
@@ -254,7 +254,8 @@ class Gen:
             assoc = self.rng.choice([None, None, True, False])
             a = ['get', h, self.fresh(), assoc]
             s = self.slot_for(dh)
-            if iface == 'entity' and s is not None and h in self.slots[s]['cs'] and self.rng.random() < 0.7:
+            if (iface == 'entity' and s is not None and h in self.slots[s]['cs'] and not self.slots[s]['dirty']
+                    and self.rng.random() < 0.7):
                 a.append(s)
                 tag.append('stale-entity')
             acts.append(a)
@@ -830,6 +831,40 @@ class Gen:
         self.touch(dh)
         return ops
 
+    def macro_same_handle_twice(self):
+        """the same handle twice in ONE transaction: the classic getters and both descriptor interfaces refuse the
+        second call (nothing is committed), write_entity of a state / context state replaces the first write"""
+        ops = []
+        for tx in ('metric', 'comp'):
+            pool = self.state_pool(tx)
+            if len(pool) < 2:
+                continue
+            for iface in ('entity', 'classic'):
+                a, b = self.rng.sample(pool, 2)
+                items = [[a, self.fresh()], [b, self.fresh()], [a, self.fresh()]]
+                self.rng.shuffle(items)
+                ops.append({'k': 'state', 'tx': tx, 'iface': iface, 'items': items})
+        dhs = self.live('ctx')
+        if dhs:
+            dh = self.pick(dhs)
+            if not self.ctx_of(dh):
+                acts = []
+                self._mk(dh, 'entity', acts, assoc=False, explicit=True)
+                ops.append({'k': 'ctx', 'iface': 'entity', 'actions': acts})
+            h = self.rng.choice(self.ctx_of(dh))
+            for iface in ('entity', 'classic'):
+                ops.append({'k': 'ctx', 'iface': iface, 'actions': [['get', h, self.fresh(), self.rng.choice([None, True, False])],
+                                                                    ['get', h, self.fresh(), self.rng.choice([None, True, False])]]})
+                self.dirty(dh)
+            acts = []
+            n = self._mk(dh, 'entity', acts, assoc=False, explicit=True)
+            acts.append(['mk', dh, n, self.rng.random() < 0.5, self.fresh()])
+            ops.append({'k': 'ctx', 'iface': 'entity', 'actions': acts})
+        h = self.pick(self.live('metric'))
+        for iface in ('entity', 'classic'):
+            ops.append({'k': 'descr', 'iface': iface, 'actions': [['upd', h, self.fresh()], ['upd', h, self.fresh()]]})
+        return ops
+
     def macro_interleave(self):
         """every state transaction kind with states of two MDSs in an order in which the MDSs alternate"""
         ops = []
@@ -936,7 +971,7 @@ def _sc_interleave(g, mode):
 
 def _sc_stale(g, mode):
     return (g.macro_stale(mode, 'state') + g.macro_stale(mode, 'state') + g.macro_stale(mode, 'descr') +
-            g.macro_stale(mode, 'ctx') + g.macro_ctx_descr_upd(mode))
+            g.macro_stale(mode, 'ctx') + g.macro_ctx_descr_upd(mode) + g.macro_same_handle_twice())
 
 
 SCENARIOS = [_sc_cycles, _sc_cycles_stale, _sc_new_mds, _sc_ctx, _sc_abort, _sc_interleave, _sc_stale]
